@@ -29,19 +29,11 @@ var _ *raft.RaftGroup
 
 // constructors used by the wiring: only their existence matters for the ordering obligations (bodies are not read here)
 // (storage/wal.NewBadgerWAL is verified in its own package)
-//@ func cluster.NewConn
-//@ props C14 C05
-//@ assume
-//@ modifies *
+// (cluster.NewConn and storage/raft.NewTransport are verified in their own packages)
 //@ func storage.NewAllocator
 //@ props C14 C05
 //@ assume
 //@ ensures [a] ret != nil
-//@ modifies *
-//@ func storage/raft.NewTransport
-//@ props C14 C05
-//@ assume
-//@ ensures [t] ret != nil
 //@ modifies *
 //@ func storage/raft.NewNodesManager
 //@ props C14 C05 C20
